@@ -34,6 +34,8 @@ pub struct Ctx {
     pub mode: String,
     /// scale factor for workload sizes (sanitizer modes pass something < 1)
     pub scale: f64,
+    /// multiplier for the number of random cases / repetitions (not for size bounds): `--depth`
+    pub depth: f64,
     pub out: Option<String>,
     pub journal: Option<std::fs::File>,
     pub replay: Option<u64>,
@@ -136,6 +138,7 @@ impl Ctx {
         let mut replay = None;
         let mut verbose = false;
         let mut scale = 1.0;
+        let mut depth = 1.0;
         let args: Vec<String> = std::env::args().collect();
         let mut i = 1;
         while i < args.len() {
@@ -167,6 +170,7 @@ impl Ctx {
                 },
                 "--mode" => mode = val(),
                 "--scale" => scale = val().parse().expect("scale"),
+                "--depth" => depth = val().parse().expect("depth"),
                 "--out" => out = Some(val()),
                 "--journal" => {
                     let p = val();
@@ -197,6 +201,7 @@ impl Ctx {
             nshards,
             mode,
             scale,
+            depth,
             out,
             journal,
             replay,
@@ -230,6 +235,12 @@ impl Ctx {
     pub fn budget(&self, q: usize, t: usize) -> usize {
         let b = if self.thorough() { t } else { q } as f64 * self.scale;
         (b.ceil() as usize).max(1)
+    }
+
+    /// budget for a *number of cases* (random cases, repetitions): also multiplied by `--depth`,
+    /// which the thorough tier uses to go deeper without enlarging the size bounds of the sweeps
+    pub fn cbudget(&self, q: usize, t: usize) -> usize {
+        ((self.budget(q, t) as f64 * self.depth).ceil() as usize).max(1)
     }
 
     /// true under the Miri interpreter (3-4 orders of magnitude slower): the binaries switch to
